@@ -255,6 +255,15 @@ func run(cfg *Config) int {
 	P := interp.NewProgram(L.Prog, repoModule, cfg.Repo, L.Sizes)
 	P.Trace = cfg.Trace
 	P.Tier = cfg.Tier
+	for _, hf := range L.HarnessFiles {
+		for _, st := range hf.Stubs {
+			if err := P.AddStub(repoModule+"/"+hf.PkgDir, st[0], st[1]); err != nil {
+				fmt.Fprintln(os.Stderr, "gosmt:", err)
+				fmt.Println("INCONCLUSIVE:", err)
+				return 2
+			}
+		}
+	}
 	var roots []*ssa.Package
 	seen := map[*ssa.Package]bool{}
 	for _, h := range L.Harnesses {
